@@ -551,7 +551,7 @@ def nuclide_merge_refuses_overlap_and_keeps_operands(ctx, copy):
 # inelastic.  Plain Python: c = XSCollection(None); c.elasticScatter = csr_matrix(numpy.eye(2));
 # c.getTotalScatterMatrix() -> TypeError: unsupported operand type(s) for *: 'NoneType' and 'float'.
 # While the flag is True only collections that hold an (n,2n) matrix are examined.
-KNOWN_DEFECT_total_scatter_raises_without_n2n = True  # repair proposed: /tmp/scratch/triage/<this name>.diff
+KNOWN_DEFECT_total_scatter_raises_without_n2n = False  # repaired in /repo (fix: aa56f29)
 
 SCATTER_MATRICES = tuple(xsCollections.BASIC_SCAT_MATRIX)            # elasticScatter, inelasticScatter, n2nScatter
 PRESENT = [c for r in range(4) for c in itertools.combinations(SCATTER_MATRICES, r)]
